@@ -183,7 +183,8 @@ def main():
                        "value of the symbolic inputs inside the listed bounds and say nothing outside them.",
         "exhaustive": False,
     }
-    write_evidence(prop, a.tier, "model_checking", coverage, sorted(assumptions), wall, len(violations))
+    if not (a.only or a.no_kani):  # partial development runs never overwrite the evidence of a full run
+        write_evidence(prop, a.tier, "model_checking", coverage, sorted(assumptions), wall, len(violations))
     say("== %s tier=%s: %d queries, %d hold, %d violations, %d broken, %d known findings, %.0fs" % (
         prop, a.tier, queries, n_pass, len(violations), len(broken), len(known_hit), wall))
     common.cleanup()
